@@ -2,8 +2,9 @@
 from dataclasses import dataclass, field
 from typing import TYPE_CHECKING, Dict, List, Optional, Tuple
 
+from . import exceptions
 from .encoding import Encoding, get_string_encoding
-from .exceptions import DecodeError, odxassert, odxraise, strict_mode
+from .exceptions import DecodeError, odxassert, odxraise
 from .odxtypes import AtomicOdxType, DataType, ParameterValue
 
 try:
@@ -119,7 +120,7 @@ class DecodeState:
         # ... string types, ...
         elif base_data_type in (DataType.A_UTF8STRING, DataType.A_ASCIISTRING,
                                 DataType.A_UNICODE2STRING):
-            text_errors = 'strict' if strict_mode else 'replace'
+            text_errors = 'strict' if exceptions.strict_mode else 'replace'
             str_encoding = get_string_encoding(base_data_type, base_type_encoding,
                                                is_highlow_byte_order)
             if str_encoding is not None:
